@@ -262,6 +262,7 @@ package immutable
 //@ func (*hamt).delete(m, key, mutable) result
 //@   prop C03 C04
 //@   option timeout=60
+//@   option summary
 //@   requires hamtWF(m) && !mutable
 //@   ensures result != nil && result.hasher == m.hasher && hamtWF(result)
 //@   tag wellFormed
@@ -281,3 +282,20 @@ package immutable
 //@   ghost after "newChild := child.delete(key, shift+mapNodeBits, keyHash, h, mutable, resized)" :: verifspec.Reveal(Rec_childOK(newChild, (keyHash>>shift)&mapNodeMask, shift, h))
 //@   ghost before "return other" #0 :: verifspec.AssertPure(bitmapGetByBit(other, shift, h))
 //@   ghost before "return other" #1 :: verifspec.AssertPure(bitmapGetByBit(other, shift, h))
+//
+//@ func (*hamt).Removed(m, key) result
+//@   prop C03 C04
+//@   option assume=delete
+//@   requires hamtWF(m)
+//@   ensures result != nil && hamtWF(result.(*hamt[K, V]))
+//@   tag wellFormed
+//@   ensures forall k K :: (forall j int :: 0 <= j && j < len(key) ==> !m.hasher.Eqv(k, key[j])) ==> Eq(result.(*hamt[K, V]).Get(k), Old(m.Get(k)))
+//@   tag otherKeysUnchanged
+//@   ensures forall k K, j int :: 0 <= j && j < len(key) && m.hasher.Eqv(k, key[j]) ==> !result.(*hamt[K, V]).Get(k).IsDefined()
+//@   tag removedKeysAreGone
+//@   ensures Unchanged()
+//@   tag persistent
+//@   loop 0 invariant 0 <= idx_ && idx_ < len(key) && ret != nil && ret.hasher == m.hasher && hamtWF(ret)
+//@   loop 0 invariant forall k K :: (forall j int :: 0 <= j && j < idx_ ==> !m.hasher.Eqv(k, key[j])) ==> Eq(ret.Get(k), m.Get(k))
+//@   loop 0 invariant forall k K, j int :: 0 <= j && j < idx_ && m.hasher.Eqv(k, key[j]) ==> !ret.Get(k).IsDefined()
+//@   loop 0 decreases len(key) - idx_
